@@ -192,24 +192,36 @@ def match_arms(m):
     return out
 
 
-def closure_of(body, method):
+CRATE = [None]  # set by run(): lets closure_of resolve `.map_infix(build_infix)` (a function handed over by name)
+
+
+def closure_of(body, method, required=True):
     for n in H.walk(body):
         if H.kind(n) == "MethodCall" and n["name"] == method and n["args"]:
             c = H.strip(n["args"][0])
             if H.kind(c) == "Closure":
                 return c
-    raise CheckerError("no closure passed to .%s(..) in the AST builder" % method)
+            if H.kind(c) == "Path" and CRATE[0] is not None and (c["res"].get("def") or "") in CRATE[0].hir:
+                f = CRATE[0].hir_fn(c["res"]["def"])
+                return {"k": "Closure", "params": f.get("params", []), "body": f["body"], "sp": f.get("sp"), "from_fn": c["res"]["def"]}
+    if required:
+        raise CheckerError("no closure passed to .%s(..) in the AST builder" % method)
+    return None
 
 
-def rule_match(clo):
-    ms = H.matches_on(clo["body"], "parser::Rule")
+def rule_match(clo, required=True):
+    ms = H.matches_on(clo["body"], "parser::Rule") if clo is not None else []
     if not ms:
-        raise CheckerError("closure has no match on parser::Rule")
-    return ms[0]
+        if required:
+            raise CheckerError("closure has no match on parser::Rule")
+        return None
+    # the dispatch match is the one with the most arms (helpers inlined into the closure may contain smaller ones)
+    return max(ms, key=lambda m: len(m["arms"]))
 
 
 def run(ctx):
     core = ctx.core
+    CRATE[0] = core
     G = Grammar(ctx.grammar)
     rows = precedence_rows(core)
     ctx.units["precedence_rows"] = len(rows)
@@ -253,14 +265,34 @@ def run(ctx):
     if len(set(g_infix)) != len(g_infix):
         ctx.inst("C10.R2", "grammar#infix-dup", False, "an infix rule is listed twice in infix_op/natural_infix_op", "blots-core/src/grammar.pest")
     t_rules = [r["rule"] for r in rows]
-    m_infix = rule_match(closure_of(builder, "map_infix"))
+    c_infix = closure_of(builder, "map_infix", required=False)
+    m_infix = rule_match(c_infix, required=False)
     b_pairs = {}
-    for vs, body, a in match_arms(m_infix):
-        tgt = H.path_def(body)
-        for v in vs:
-            b_pairs[v] = H.last(tgt) if tgt else None
+    infix_from_table = False
     t_pairs = {r["rule"]: r["binop"] for r in rows}
-    for r in sorted(set(g_infix) | set(t_rules) | set(b_pairs)):
+    if m_infix is not None:
+        for vs, body, a in match_arms(m_infix):
+            tgt = H.path_def(body)
+            for v in vs:
+                b_pairs[v] = H.last(tgt) if tgt else None
+    elif c_infix is not None:
+        # no match on the rule: the operator may be looked up in PRECEDENCE_TABLE itself (rule column -> BinaryOp column)
+        for n in H.walk(c_infix["body"]):
+            d_ = n.get("def") if H.kind(n) in ("Call", "MethodCall") else None
+            if d_ and d_ in core.hir and any(H.kind(x) == "Path" and (x["res"].get("def") or "").endswith("precedence::PRECEDENCE_TABLE") for x in H.walk(core.hir[d_]["body"])):
+                infix_from_table = True
+            if H.kind(n) == "Path" and (n.get("res", {}).get("def") or "").endswith("precedence::PRECEDENCE_TABLE"):
+                infix_from_table = True
+        if infix_from_table:
+            b_pairs = dict(t_pairs)
+            ctx.notes.append("the AST builder takes the BinaryOp of an infix rule from PRECEDENCE_TABLE itself: builder pairs = table pairs by construction")
+    if m_infix is None and not infix_from_table:
+        for r in sorted(set(g_infix) | set(t_rules)):
+            ctx.inst("C10.R2", "infix=%s" % r, None, "the builder's rule -> BinaryOp mapping could not be read (no match on the rule, no table lookup)", "blots-core/src/expressions.rs")
+        g_infix_eff = []
+    else:
+        g_infix_eff = g_infix
+    for r in (sorted(set(g_infix) | set(t_rules) | set(b_pairs)) if g_infix_eff else []):
         in_g, in_t, in_b = r in g_infix, r in t_pairs, r in b_pairs
         good = in_g and in_t and in_b and t_pairs[r] == b_pairs[r]
         ctx.inst("C10.R2", "infix=%s" % r, good, "grammar:%s table:%s builder:%s" % (in_g, t_pairs.get(r), b_pairs.get(r)), "blots-core/src/precedence.rs")
